@@ -13,7 +13,7 @@ use attribute::{Context, DefinitionHeader, Transparent};
 use constants::ConstLit;
 use proc_macro2::TokenStream;
 use quote::quote;
-use std::convert::Infallible;
+use std::convert::{Infallible, TryFrom};
 use std::str::FromStr;
 use syn::spanned::Spanned;
 use syn::{Attribute, Item};
@@ -368,20 +368,32 @@ fn parse_and_remove_first_asn_attribute<C: Context>(
     })
 }
 
+fn push_consts(r#type: &mut Type, consts: Vec<ConstLit>) {
+    match r#type {
+        Type::Optional(inner) | Type::Default(inner, _) => push_consts(inner, consts),
+        Type::Integer(int) => consts
+            .into_iter()
+            .map(|c| match c {
+                ConstLit::I64(name, value) => (name, value),
+            })
+            .for_each(|v| int.constants.push(v)),
+        Type::BitString(bits) => consts
+            .into_iter()
+            .filter_map(|c| match c {
+                ConstLit::I64(name, value) => Some((name, u64::try_from(value).ok()?)),
+            })
+            .for_each(|v| bits.constants.push(v)),
+        _ => {}
+    }
+}
+
 fn into_asn<C: Context<Primary = Type>>(ty: &syn::Type, mut asn: AsnAttribute<C>) -> AsnModelType {
     AsnModelType {
         tag: asn.tag,
         r#type: if let Type::TypeReference(_, empty_tag) = asn.primary {
             Type::TypeReference(quote! { #ty }.to_string(), empty_tag.or(asn.tag))
         } else {
-            if let Type::Integer(int) = asn.primary.no_optional_mut() {
-                asn.consts
-                    .into_iter()
-                    .map(|c| match c {
-                        ConstLit::I64(name, value) => (name, value),
-                    })
-                    .for_each(|v| int.constants.push(v));
-            }
+            push_consts(&mut asn.primary, asn.consts);
             asn.primary
         },
         default: asn.default_value,
